@@ -392,7 +392,14 @@ func (s *Session) detachSession(fromTopic string) {
 }
 
 func (s *Session) stopSession(data any) {
-	s.stop <- data
+	// The channel is buffered by 1 to make the request non-blocking, but the write loop reads at most
+	// one request before it exits: a second request (e.g. account eviction and connection cleanup)
+	// would block its sender forever, EvictUser even while holding the session store lock.
+	select {
+	case s.stop <- data:
+	default:
+		// A stop request is already pending.
+	}
 	s.maybeScheduleClusterWriteLoop()
 }
 
